@@ -13,7 +13,7 @@ from sim.engines import REAL_STUB, Engine
 INIT_EXCS = sorted(seam.EXC_TABLE) + ['SeasoningError', 'RecognitionError']
 ALL_INIT_VARIANTS = [[e, a] for e in INIT_EXCS for a in seam.ARG_SHAPES
                      if not (e == 'UnicodeDecodeError' and a != 'msg')]
-SAVORIZE_VARIANTS = [['SeasoningError', a] for a in seam.ARG_SHAPES]
+SAVORIZE_VARIANTS = [[e, a] for e in ('SeasoningError', 'UserSeasoningError') for a in seam.ARG_SHAPES]
 
 
 class NamespaceCache:
